@@ -10,6 +10,26 @@ E3 = 'TLC model checking of a TLA+ model generated from the documented tables, w
 
 # pid -> (engine, technique, level text, note, design_ref)
 CHECKS = {
+    'C10': ('E2', E2,
+            'Explicit-state search to depth 4/5 over 35 public API events (plane construction with caller arrays incl. a float mask and a '
+            '3-D mask, multiply, DFT/FFT propagation with a scratch buffer, fit_tilt copy / in place, OPD updates, rescale, dft2 / idft2 '
+            'with repeated shapes, adc, seeded noise models, global-generator use, blurs, charge collection with a spectrum, spectrum '
+            'arithmetic / sampling / binning, Zernike fit/remove, insert, utilities) on one shared pool. A state is the history that '
+            'reaches it: every successor is rebuilt on fresh objects with cold library caches, so the LRU cache and the global '
+            'generator are functions of the history. Oracles: byte digests of every pool item before/after each call (writable and '
+            'frozen read-only runs); a memo table (event, argument digests) -> result digest merged over all histories and worker '
+            'processes (one key, one result); equal plane states (amplitude, mask, OPD + recorded tilt) propagate to equal fields; '
+            'seeded functions leave the global generator untouched.',
+            'Trusted: numpy; spectra compared physically; documented in-place targets: insert -> out, scratch=, fit_tilt(inplace) -> plane.',
+            'DESIGN.md section 4 C10'),
+    'C17': ('E1', E1,
+            'Gaussian-apodised amplitude + low-order OPD on even, odd and non-square arrays x monolithic / two-segment masks x 9 scale '
+            'factors 0.5..4 x {rescale(s), resample(dx/s)}: exact oracles (pixel scale = dx/s, ceil(n*s) samples, binary mask with its '
+            'segment structure, original plane digest unchanged, s = 1 identity to 1e-12, refusals without side effect) and the '
+            'interpolation-accuracy claims with stated tolerances (power 1 %, propagated image 2 % relative L2, extent one sample; '
+            'measured spline noise on this alphabet is <= 1e-4 / 1e-3).',
+            'Bounded numerical statement, not an exact decision, for the interpolation claims; trusted: scipy.ndimage.',
+            'DESIGN.md section 4 C17'),
     'C18': ('E1', E1 + ' (complete enumeration of a seed range)',
             'Seeds 0..63/0..511 x frames (4x4, 3x5, 16x16) x levels (0, 1/2, 3, 50, 1e4) x 6 seeded models (Poisson and Gaussian shot '
             'noise, read noise, dark current with FPN, rule-07 dark current, PSD surface error): same seed gives identical draws under '
